@@ -97,13 +97,19 @@ def _source_footprints(ctx):
         bad = [v for v in ver if v.split(" ")[1:2] != ["OK"]]
         if rc != 0 or len(ver) != len(lines):
             out.append(("INFRA", "driver srcfp exited %d (%d of %d verdicts): %s" % (rc, len(ver), len(lines), err[-800:]), ""))
-        for v in bad[:3]:
-            p = v.split(" ", 2)
-            inp = by_id.get(p[0], "")
-            out.append(("DIFF", p[2] if len(p) > 2 else v, inp if len(inp) < 200000 else ""))
+        diffs = [v for v in bad if v.split(" ")[1:2] != ["PROPFAIL"]]
+        fails = [v for v in bad if v.split(" ")[1:2] == ["PROPFAIL"]]
+        # PROPFAIL here = a statically derived violation (kernels that cannot run on this host: NEON): the model's
+        # wrapper lets the call through, model and source-derived footprint agree, and check_C06 rejects an access
+        for kind, vs in (("DIFF", diffs[:5]), ("PROPFAIL", fails[:4])):
+            for v in vs:
+                p = v.split(" ", 2)
+                inp = by_id.get(p[0], "")
+                out.append((kind, p[2] if len(p) > 2 else v, inp if len(inp) < 200000 else ""))
         out.append(("EVAL", str(len(ver)), ""))
         ctx["notes"].append("source-derived footprints: %d (kernel, parameter) cases of %d kernels interpreted from the "
-                            "source and compared with the model, %d differ" % (len(lines), len(footprint_exec.KERNELS), len(bad)))
+                            "source and compared with the model, %d differ, %d statically derived violations (NEON)" % (
+                                len(lines), len(footprint_exec.KERNELS), len(diffs), len(fails)))
     return out
 
 
@@ -199,8 +205,14 @@ SPEC = dict(
          "destination / symbol code >= K left in a caller buffer; DIFF = guard outcome "
          "(panic / early return / rows written) or stride differs from the model, the extracted checker check_C06 rejects a model "
          "access, or the extracted history model (FpHistory.hstep, the subject of C06_histories_partial) replayed on the observed "
-         "pre-state of the op gives another post-state / kernel entry than the implementation. Source tie: 497 memory-relevant statements of the 44 functions the model was transcribed from are compared with "
-         "their pinned text, and every `unsafe` must lie inside them. Non-trivial: distinct histories with an op that enters an "
+         "pre-state of the op gives another post-state / kernel entry than the implementation. Source tie: 575 memory-relevant statements of the 50 functions the model was transcribed from (neon.rs "
+         "included) are compared with their pinned text, and every `unsafe` of lightmotif/src must lie inside them. Source-derived "
+         "footprints: an interpreter of the kernels' control flow and pointer arithmetic derives the access list of each of the 15 "
+         "kernels (12 x86 + 3 NEON) on a parameter grid (294 quick / 385 thorough cases) from the source text; the driver compares it "
+         "with the extracted model (as sets) and runs check_C06 on it; for the NEON kernels (cannot run on this host) also the "
+         "wrappers' guards are interpreted, and a call the wrapper lets through whose footprint check_C06 rejects is a statically "
+         "derived PROPFAIL (this is how finding F26 — no row-range check in the NEON wrappers, repaired in 9cd9b52 — showed; its "
+         "witness stays in the grid as a must-pass case). Non-trivial: distinct histories with an op that enters an "
          "unsafe kernel (SIMD arm or native dispatcher), all SSE2-width cases, dense histories with from_rows/fill/clone/iterators.",
     trusted_base=[
         "Coq 8.16.1 kernel (coqc); vm_compute only in the refuted/non-vacuity statements; no native_compute",
@@ -221,11 +233,12 @@ SPEC = dict(
         "alignment come from the dense layout model (C19) and are compared with .stride() on every op; semantics of the "
         "load/store/stream/gather intrinsics (width, alignment requirement); gather lanes are symbol codes < K",
         "NOT covered (said in DESIGN 3/C06): allocator and compiler correctness, reads of allocated-but-uninitialised memory "
-        "(encode_raw's set_len buffer on the error path, from_rows with a short iterator), data races, the NEON kernels "
-        "(do not compile on x86_64), Miri-level aliasing rules",
+        "(encode_raw's set_len buffer on the error path, from_rows with a short iterator), data races, Miri-level aliasing rules; the NEON "
+        "kernels are modelled and tied to the source text but never executed (no Arm host)",
     ],
     assumptions=[
-        "host is x86_64 with AVX2 (Dispatch arms Generic/Sse2/Avx2; native dispatch = AVX2)",
+        "host is x86_64 with AVX2 (Dispatch arms Generic/Sse2/Avx2; native dispatch = AVX2); the NEON arm is tied to the source "
+        "statically only (pinned text + interpreter), never executed",
         "every stored symbol code is < K (type invariant of A::Symbol; checked by the harness on caller-owned buffers after encode_into)",
         "a DenseMatrix<T,C> owns rows()*stride()*size_of::<T>() bytes starting at a 32-byte aligned address (C19 layout model; "
         "the allocator honours the alignment of Row); slices and stack arrays have no alignment guarantee",
